@@ -87,14 +87,28 @@ impl<F: Read + Write + Seek> Stream<F> {
     /// case the position becomes the new end of the stream.
     pub fn set_len(&mut self, size: u64) -> io::Result<()> {
         if size != self.total_len {
-            let new_position = self.current_position().min(size);
+            let old_position = self.current_position();
+            let new_position = old_position.min(size);
             self.flush_changes()?;
             let minialloc = self.minialloc()?;
-            resize_stream(
+            let result = resize_stream(
                 &mut minialloc.write().unwrap(),
                 self.stream_id,
                 size,
-            )?;
+            );
+            if result.is_err() {
+                // The resize may have been partly applied before it failed;
+                // pick up the length that the directory entry now records, so
+                // that this handle and the entry do not disagree later.
+                self.total_len = minialloc
+                    .read()
+                    .unwrap()
+                    .dir_entry(self.stream_id)
+                    .stream_len;
+                self.buf_offset_from_start = old_position.min(self.total_len);
+                self.buffer.clear();
+            }
+            result?;
             self.total_len = size;
             self.buf_offset_from_start = new_position;
             self.buffer.clear();
